@@ -8,6 +8,12 @@ FINITE_ITERATORS = (
     "core::ops::range::Range", "core::slice::iter::Iter", "core::slice::iter::IterMut", "alloc::vec::drain::Drain", "alloc::vec::into_iter::IntoIter",
     "std::collections::hash::map::Iter", "std::collections::hash::map::Drain", "std::collections::hash::map::IntoIter",
     "core::iter::adapters::enumerate::Enumerate", "core::str::iter::Chars", "core::str::iter::Bytes",
+    # iterators over the pieces of a slice: as many items as the slice has pieces (chunks(n) panics for n = 0 - a precondition
+    # obligation of its own - and otherwise yields ceil(len / n) slices)
+    "core::slice::iter::Chunks", "core::slice::iter::ChunksExact", "core::slice::iter::Windows", "core::slice::iter::RChunks",
+    "core::iter::adapters::skip::Skip", "core::iter::adapters::take::Take", "core::iter::adapters::zip::Zip", "core::iter::adapters::rev::Rev",
+    "core::iter::adapters::peekable::Peekable", "alloc::collections::vec_deque::iter::Iter", "alloc::collections::vec_deque::drain::Drain",
+    "alloc::collections::vec_deque::into_iter::IntoIter", "alloc::collections::btree::map::Iter", "alloc::collections::btree::map::IntoIter",
 )
 
 READ_CALLS = ("byteorder::io::ReadBytesExt::read_u8", "byteorder::io::ReadBytesExt::read_u16", "byteorder::io::ReadBytesExt::read_u24",
@@ -41,6 +47,16 @@ def iterator_driven(env, body, head):
         base = self_ty.split("<")[0]
         if base not in FINITE_ITERATORS:
             continue
+        if base.startswith("core::iter::adapters::"):
+            # an adapter is as finite as what it adapts: its first type argument must be a finite iterator too (Enumerate<RangeFrom> is not)
+            rty = it.op_type(t["args"][0])
+            while rty.get("k") == "ref":
+                rty = rty["to"]
+            full = rty.get("s", "")
+            names = re.findall(r"[A-Za-z_][\w:]*(?=<|,|>|$)", full)
+            iters = [n for n in names if "::iter" in n or "::range::" in n or "::drain::" in n or "::into_iter::" in n or "::map::" in n]
+            if not iters or any(n not in FINITE_ITERATORS for n in iters):
+                continue
         if not all(body.dominates(bi, s) for s in back_edge_sources(body, head)):
             continue
         # receiver: &mut <local iterator> that is not re-assigned inside the loop
